@@ -80,6 +80,10 @@ func (rmap *Records) RenameRecord(key string, newkey string) error {
 	if !ok {
 		return fmt.Errorf("%w: %s", ErrNotFound, key)
 	}
+	if key == newkey {
+		// Renaming a key onto itself keeps it.
+		return nil
+	}
 	record.Key = newkey
 	err := rmap.SetRecord(record)
 	if err != nil {
